@@ -42,7 +42,7 @@ def reg(pid, pkg, run, race=False, shards=(1, 16), timeout=(900, 5400), overlay=
                        gomaxprocs=gomaxprocs, crash_is_violation=crash_is_violation)
 
 
-A_MATCH = ["the reference matcher (internal/refmatch), written from README/doc/rfc.md, is the oracle",
+A_MATCH = ["the reference matcher (lib/refmatch), written from README/doc/rfc.md, is the oracle",
            "messages and bound values contain no string starting with '?' (as the property states)"]
 reg("C01", "./checks/match", "^TestC01", assumptions=A_MATCH)
 reg("C02", "./checks/match", "^TestC02", assumptions=A_MATCH)
@@ -51,14 +51,14 @@ reg("C03", "./checks/match", "^TestC03", race=True, shards=(2, 16),
                  "map iteration orders are reached by rebuilding maps in permuted insertion order"])
 
 
-A_CORE = ["the executable step rule (internal/sm/refstep.go), written from README 'Processing' and the documented error settings, is the oracle",
+A_CORE = ["the executable step rule (lib/sm/refstep.go), written from README 'Processing' and the documented error settings, is the oracle",
           "candidate bindings for a branch come from the real matcher (covered by C01-C03)",
           "error message texts are opaque tokens; traces are not compared"]
 reg("C04", "./checks/core", "^TestC04", assumptions=A_CORE)
 reg("C05", "./checks/core", "^TestC05", assumptions=A_CORE)
 reg("C06", "./checks/core", "^TestC06", assumptions=A_CORE[2:] + ["native actions never mutate nested values in place (actions are documented as side-effect free)"])
 reg("C07", "./checks/core", "^TestC07", crash_is_violation=True, assumptions=["a nil *State and Execution literals with nil Events are API misuse, not generated", "panics inside the third-party YAML parser on byte-level garbage are not searched for"])
-reg("C08", "./checks/core", "^TestC08", assumptions=A_CORE[2:] + ["the action model (internal/sm/actlang.go) says which emissions a completed action makes", "after a walk's deadline has passed a later action may complete or be cut short (both accepted)"])
+reg("C08", "./checks/core", "^TestC08", assumptions=A_CORE[2:] + ["the action model (lib/sm/actlang.go) says which emissions a completed action makes", "after a walk's deadline has passed a later action may complete or be cut short (both accepted)"])
 reg("C09", "./checks/core", "^TestC09", assumptions=["specifications are deterministic by construction", "the state is serialised with core.State's own JSON tags, as sio and mcrew do"])
 reg("C13", "./checks/core", "^TestC13", assumptions=["strings in YAML renderings are produced by the YAML library's own marshaller", "native actions cannot be represented as text and are not generated here"])
 reg("C18", "./checks/core", "^TestC18", assumptions=A_CORE + ["an action that returns null gets empty bindings; whether permanent bindings survive that is not judged"])
@@ -72,6 +72,18 @@ reg("C14", "./checks/sio", "^TestC14", shards=(4, 16), assumptions=["the routing
 
 reg("C15", "./checks/sio", "^TestC15", shards=(4, 16), assumptions=["counter machines react independently (their reactions to one message commute)", "the store folds changes exactly as sio's Stdio coupling does; crash points are message boundaries"])
 
+OV_MCREW = dict(name="mcrew", files={
+    "_overlay/mcrew/zz_verif_c16_test.go": "cmd/mcrew/zz_verif_c16_test.go",
+    "_overlay/mcrew/zz_verif_c17_test.go": "cmd/mcrew/zz_verif_c17_test.go",
+})
+OV_MCREW_RACE = dict(OV_MCREW, name="mcrew-race")
+reg("C17", "./cmd/mcrew", "^TestC17", overlay=OV_MCREW_RACE, race=True, shards=(16, 16), timeout=(900, 5400),
+    assumptions=["real time: 'never fires' is judged 2.5 s after the last due time; late is not wrong",
+                 "interleavings between timer goroutines and the requester are sampled; the 'cancel exactly at due' window is hit probabilistically"])
+reg("C16", "./cmd/mcrew", "^TestC16", overlay=OV_MCREW, shards=(4, 16), level="fault_enumeration",
+    assumptions=["bolt's transaction is the trusted base: a crash is modelled at operation boundaries, faults as a closed store or a rejected key",
+                 "interleavings of concurrent clients are sampled"])
+
 
 def log(*a):
     print(*a, flush=True)
@@ -79,6 +91,8 @@ def log(*a):
 
 def binpath(cfg):
     name = cfg["pkg"].strip("./").replace("/", "_")
+    if cfg["overlay"]:
+        name = "overlay_" + name
     if cfg["race"]:
         name += ".race"
     return os.path.join(ROOT, ".bin", name + ".test")
@@ -132,7 +146,7 @@ def prepare_overlay(cfg):
     os.makedirs(work, exist_ok=True)
     # alternative module file: /repo's go.mod + rapid
     mod = open(os.path.join(REPO, "go.mod")).read()
-    mod += "\nrequire pgregory.net/rapid v1.3.0\n"
+    mod += "\nrequire pgregory.net/rapid v1.3.0\nrequire verif v0.0.0\nreplace verif => %s\n" % ROOT
     modfile = os.path.join(work, "go.mod")
     with open(modfile, "w") as f:
         f.write(mod)
@@ -315,7 +329,10 @@ def run_check(pid, tier, replay=None):
             continue
         k = int(os.path.basename(rf).split(".")[1])
         bad_shards = [b for b in bad_shards if b[0] != k]
-        if "github.com/Comcast/sheens" in rtext or REPO + "/" in rtext:
+        # frames are attributed by file: sources under /repo, except the
+        # harness files injected with -overlay (zz_verif_*)
+        sheens_lines = [l for l in rtext.splitlines() if (REPO + "/") in l and "zz_verif_" not in l]
+        if sheens_lines:
             os.makedirs(os.path.join(ROOT, "replays", pid), exist_ok=True)
             dst = os.path.join(ROOT, "replays", pid, "race-%d-%d.json" % (int(time.time()), k))
             journals = sorted(glob.glob(os.path.join(work, "w%d" % k, "journal-%s-*.json" % pid)), key=os.path.getmtime)
@@ -327,7 +344,7 @@ def run_check(pid, tier, replay=None):
                     case = None
             with open(dst, "w") as f:
                 json.dump({"property": pid, "check": "race", "message": rtext[:6000], "case": case}, f, indent=1)
-            frames = [l.strip() for l in rtext.splitlines() if "github.com/Comcast/sheens" in l][:3]
+            frames = [l.strip() for l in sheens_lines][:3]
             line = "VIOLATION property=%s replay=%s" % (pid, dst)
             if line not in [v[0] for v in violations]:
                 violations.append((line, "  %s: the race detector reports a data race in %s" % (pid, "; ".join(frames))))
